@@ -95,15 +95,52 @@ func (c *Collection) TotalWeight() int {
 
 // Bounds returns the bounds of all the items in the collection.
 func (c *Collection) Bounds() (minX, minY, maxX, maxY float64) {
-	_, _, left := c.spatial.LeftMost()
-	_, _, bottom := c.spatial.BottomMost()
-	_, _, right := c.spatial.RightMost()
-	_, _, top := c.spatial.TopMost()
+	lmin, _, left := c.spatial.LeftMost()
+	bmin, _, bottom := c.spatial.BottomMost()
+	_, rmax, right := c.spatial.RightMost()
+	_, tmax, top := c.spatial.TopMost()
 	if left == nil {
 		return
 	}
-	return left.Rect().Min.X, bottom.Rect().Min.Y,
-		right.Rect().Max.X, top.Rect().Max.Y
+	minX, minY = left.Rect().Min.X, bottom.Rect().Min.Y
+	maxX, maxY = right.Rect().Max.X, top.Rect().Max.Y
+	// The index stores float32 rectangles rounded outwards, so the object on
+	// an outer edge of the index is not necessarily the outermost one: another
+	// object within float32 precision of that edge may reach further. Look at
+	// every object whose stored rectangle comes that close to each edge.
+	c.spatial.Search(
+		[2]float32{lmin[0], bmin[1]}, [2]float32{rtreeValueUp(minX), tmax[1]},
+		func(_, _ [2]float32, o *object.Object) bool {
+			if x := o.Rect().Min.X; x < minX {
+				minX = x
+			}
+			return true
+		})
+	c.spatial.Search(
+		[2]float32{lmin[0], bmin[1]}, [2]float32{rmax[0], rtreeValueUp(minY)},
+		func(_, _ [2]float32, o *object.Object) bool {
+			if y := o.Rect().Min.Y; y < minY {
+				minY = y
+			}
+			return true
+		})
+	c.spatial.Search(
+		[2]float32{rtreeValueDown(maxX), bmin[1]}, [2]float32{rmax[0], tmax[1]},
+		func(_, _ [2]float32, o *object.Object) bool {
+			if x := o.Rect().Max.X; x > maxX {
+				maxX = x
+			}
+			return true
+		})
+	c.spatial.Search(
+		[2]float32{lmin[0], rtreeValueDown(maxY)}, [2]float32{rmax[0], tmax[1]},
+		func(_, _ [2]float32, o *object.Object) bool {
+			if y := o.Rect().Max.Y; y > maxY {
+				maxY = y
+			}
+			return true
+		})
+	return minX, minY, maxX, maxY
 }
 
 func (c *Collection) indexDelete(item *object.Object) {
